@@ -90,6 +90,8 @@ impl InnerWalWriter {
 
         self.file = Some(writer);
         self.entries_written = Self::count_entries(&self.dir);
+        #[cfg(feature = "verif-hooks")]
+        crate::verif_hooks::point("wal.log_opened", self.current_log_id);
         Ok(())
     }
 
@@ -100,7 +102,11 @@ impl InnerWalWriter {
             "Rotating WAL log file"
         );
         self.flush_and_close()?;
+        #[cfg(feature = "verif-hooks")]
+        crate::verif_hooks::point("wal.rot.closed", self.current_log_id);
         self.current_log_id += 1;
+        #[cfg(feature = "verif-hooks")]
+        crate::verif_hooks::point("wal.rot.id_bumped", self.current_log_id);
         self.start_next_log_file()
     }
 
@@ -116,10 +122,14 @@ impl InnerWalWriter {
 
             file.write_all(json.as_bytes())?;
             file.write_all(b"\n")?;
+            #[cfg(feature = "verif-hooks")]
+            crate::verif_hooks::point("wal.line_written", self.current_log_id);
 
             if CONFIG.wal.flush_each_write {
                 file.flush()?;
             }
+            #[cfg(feature = "verif-hooks")]
+            crate::verif_hooks::point("wal.flushed", self.current_log_id);
 
             if CONFIG.wal.fsync
                 && self.entries_written % CONFIG.wal.fsync_every_n.unwrap_or(32) as u64 == 0
